@@ -38,6 +38,13 @@ impl RevocationRegistry {
 
     /// Remove the specified elements from the registry
     pub fn revoke(&mut self, sk: &SecretKey, elements: &[String]) -> CredxResult<()> {
+        // check the whole batch first so that an error leaves the registry unchanged
+        let mut batch = IndexSet::with_capacity(elements.len());
+        for e in elements {
+            if !self.active.contains(e) || !batch.insert(e) {
+                return Err(Error::InvalidRevocationRegistryRevokeOperation);
+            }
+        }
         let mut removals = Vec::new();
         for e in elements {
             if !self.active.shift_remove(e) {
